@@ -29,7 +29,7 @@ func init() {
 	runner.Register(&runner.Check{
 		ID:    "C20",
 		Level: "fault_enumeration",
-		Rule: "base transactions: memory-buffered / spilled / spilled+ProcessPartial request body, multipart with 1 and 2 files under SecUploadKeepFiles Off / On / RelevantOnly (with and without a logged match), bodies their processor rejects (truncated JSON, multipart delimited by another boundary or lacking the blank line after a part header: the fault-free run itself must surface the error) and bodies it tolerates by design (truncated multipart, non-strict XML: exercised, not asserted), response body, interruption in phase 1-4, audit record through the real serial and concurrent file writers; " +
+		Rule: "base transactions: memory-buffered / spilled / spilled+ProcessPartial request body, multipart with 1 and 2 files under SecUploadKeepFiles Off / On / RelevantOnly (with and without a logged match), bodies their processor rejects (truncated JSON, XML with an end tag that closes nothing, multipart delimited by another boundary or lacking the blank line after a part header: the fault-free run itself must surface the error) and bodies it tolerates by design (truncated multipart, non-strict XML: exercised, not asserted), response body, interruption in phase 1-4, audit record through the real serial and concurrent file writers; " +
 			"for each, every file-system operation the run performs (create, open, write, read-at, close, remove, mkdir, writefile — intercepted by the os shim) fails in turn (quick: every single fault, error-before and short-write; thorough: every combination of up to three faults), and independently the run is abandoned after each of its API calls and closed; private temp / upload / audit directories per execution. " +
 			"Oracle: no panic; every injected failure surfaces (returned error, REQBODY_ERROR / MULTIPART_STRICT_ERROR, or an Error-level debug-log record); after Close the temp and upload directories are empty unless retention applies or the failed operation was that file's own removal; the open-descriptor count is back to its baseline; a probe transaction on the recycled object equals the fresh outcome. " +
 			"distinct_nontrivial = distinct (base transaction, fault position and mode | abandonment point) actually reached",
@@ -72,6 +72,7 @@ func bases() []base {
 		base{Name: "multipart ending on a non-final delimiter", CT: "multipart/form-data; boundary=B", Body: strings.TrimSuffix(mp2, "--\r\n") + "\r\n", Keep: "Off"}, // truncation again: not asserted
 		base{Name: "multipart part without header end", CT: "multipart/form-data; boundary=B", Body: "--B\r\nContent-Disposition: form-data; name=\"a\"\r\nfield\r\n--B--\r\n", Keep: "Off", BadBody: true},
 		base{Name: "malformed XML", CT: "text/xml", Body: "<a><b></a>", Flags: "xml"}, // the XML processor is non-strict by design: not asserted
+		base{Name: "XML with an end tag that closes nothing", CT: "text/xml", Body: "<a>x</a></z><n k=\"v\">y</n>", Flags: "xml", BadBody: true}, // rejected even by the non-strict reader
 		base{Name: "response body", Response: true},
 		base{Name: "spilled body + response body", Conf: "SecRequestBodyInMemoryLimit 4\n", CT: "application/x-www-form-urlencoded", Body: "a=1&b=2&c=33333333", Response: true},
 	)
